@@ -19,6 +19,7 @@ from . import ops
 from . import spec as S
 
 SPECFUNS = {}       # name -> fn(se, args:list[V], kwargs) -> V
+GLOBAL_AXIOMS = {}  # name -> closed formula true in every state (definitions of spec functions, R6)
 
 
 def specfun(name):
@@ -620,3 +621,19 @@ def _dyn_is_def_template(se, a, kw):
 @specfun("truthy_inh")
 def _truthy_inh(se, a, kw):
     return vbool(True)
+
+
+def _boxed_pred(kind, sort):
+    def f(se, a, kw):
+        from .state import _box_funs
+        b = box(V(Ty(kind), z3.Const("dummy!%s" % kind, sort)))      # make sure the box function exists
+        bf = _box_funs[str(Ty(kind))]
+        un = ops.UF("unbox_" + kind, z3.IntSort(), sort)
+        sv = z3.Const("s!unbox", sort)
+        GLOBAL_AXIOMS["unbox_" + kind] = z3.ForAll([sv], un(bf(sv)) == sv, patterns=[bf(sv)])
+        return vbool(bf(un(a[0].t)) == a[0].t)
+    return f
+
+
+SPECFUNS["is_boxed_str"] = _boxed_pred("str", z3.StringSort())
+SPECFUNS["is_boxed_bytes"] = _boxed_pred("bytes", z3.StringSort())
